@@ -94,16 +94,17 @@ Section ZipLive.
   Lemma PWz_init : PWz w0.
   Proof. unfold PWz, Pz, w0, mk_world; cbn. rewrite repeat_length. split; [reflexivity|]. intros _ i Hi. apply Hend. exact Hi. Qed.
 
-  Lemma zip_LiveI_run ops : LiveI zst z_n (zrun w0 ops).
+  Lemma zip_LiveI_run ops : LiveI zst z_n (fun _ i => i) (fun _ _ => true) z_n (fun a => a <> APanic) (zrun w0 ops).
   Proof.
     apply (LiveI_run zst z_n z_awaited (fun _ i => i) z_handle false true z_order (fun _ => None) (fun _ => false) z_finish (fun s => s)
            z_drop m_final z_Q Z1 Z2 Z3 Z4 Z5 Z6 Z7 Z8 (fun _ _ _ _ _ _ => I) Z10 Z11 Z12 Z13 (fun _ _ _ _ _ => I)
            (fun _ => eq_refl) (fun _ _ _ => eq_refl) (fun _ _ => I) (fun _ => eq_refl) (fun _ _ _ => eq_refl) (fun _ _ => I)
-           zmut (fun w _ _ _ H => H) (fun _ _ => eq_refl) z_abort_panic TSz USz_cont (fun _ _ _ _ => eq_refl)).
+           zmut (fun w _ _ _ H => H) (fun _ _ => true) (fun _ _ _ _ _ => eq_refl) (fun _ _ _ _ _ _ _ _ H => H) z_n (fun _ _ _ H _ => H) (fun s i a _ _ _ => conj (Z1 s i a) (fun _ _ _ => conj eq_refl eq_refl)) (fun s is s1 _ E => conj (Z10 s is s1 E) (fun _ _ _ => conj eq_refl eq_refl)) (fun s _ => conj (eq_refl) (fun _ _ _ => conj eq_refl eq_refl)) (fun s _ => conj eq_refl (fun _ _ _ => conj eq_refl eq_refl)) z_abort_panic (fun a => a <> APanic) (fun _ H => H) APend_not_panic TSz (fun s i a s' e _ _ _ => USz_cont s i a s' e) (fun _ => True) (fun w _ _ _ _ H _ => H)).
     - apply zip_init.
     - split; [reflexivity|]. split; [exact Hnp|].
       unfold HT, N, z_n, polled. cbn. rewrite !repeat_length. split; [reflexivity|]. split; [reflexivity|].
-      intros c Hc. rewrite !repeat_nth by exact Hc. split; [intros h []|discriminate].
+      intros c Hc _. rewrite !repeat_nth by exact Hc. split; [intros h []|discriminate].
+    - apply Forall_forall. intros o _. destruct o; exact I.
   Qed.
   Lemma zip_Inv_run ops : Inv zst z_n z_awaited z_Q (zrun w0 ops).
   Proof.
@@ -124,7 +125,7 @@ Section ZipLive.
     apply (next_result zst z_n z_awaited (fun _ i => i) z_handle false true z_order (fun _ => None) (fun _ => false) z_finish (fun s => s)
            z_drop m_final z_Q Z1 Z2 Z3 Z4 Z5 Z6 Z7 Z8 (fun _ _ _ _ _ _ => I) Z10 Z11 Z12 Z13 (fun _ _ _ _ _ => I)
            (fun _ => eq_refl) (fun _ _ _ => eq_refl) (fun _ _ => I) (fun _ => eq_refl) (fun _ _ _ => eq_refl) (fun _ _ => I)
-           zmut (fun w _ _ _ H => H) (fun _ _ => eq_refl) z_abort_panic TSz TSz USz_cont TSz_order (fun s _ H _ => H) (fun _ s H => H) TSz_order_some).
+           zmut (fun w _ _ _ H => H) (fun _ _ => true) (fun _ _ _ _ _ => eq_refl) (fun _ _ _ _ _ _ _ _ H => H) z_n (fun _ _ _ H _ => H) (fun s i a _ _ _ => conj (Z1 s i a) (fun _ _ _ => conj eq_refl eq_refl)) (fun s is s1 _ E => conj (Z10 s is s1 E) (fun _ _ _ => conj eq_refl eq_refl)) (fun s _ => conj (eq_refl) (fun _ _ _ => conj eq_refl eq_refl)) (fun s _ => conj eq_refl (fun _ _ _ => conj eq_refl eq_refl)) z_abort_panic (fun a => a <> APanic) (fun _ H => H) APend_not_panic TSz TSz (fun s i a s' e _ _ _ => USz_cont s i a s' e) TSz_order (fun s _ H _ => H) (fun _ s H => H) TSz_order_some).
     - apply zip_Inv_run.
     - apply zip_LiveI_run.
     - split; assumption.
